@@ -8,7 +8,8 @@ Two parts (DESIGN.md 2.6):
     the piece BYTES of FeedChecker.iter_pieces();
   * end to end: Checker(...).results() / `torrentfile recheck` versus the reference verifier
     (harness/ref/oracle.py: absent data read as zeros) on generated trees, metafiles of every creator
-    and of the reference encoder, and damage sets.
+    and of the reference encoder (incl. v1 metafiles "of another tool" whose ordinary files carry the BEP 47
+    attributes x / h, with and without pad entries: ATTR_KINDS), and damage sets.
 A `mode` ("C04" | "C05" | "C16") selects which disk states are generated and which observable is judged.
 """
 import os
@@ -472,6 +473,16 @@ def judge(ctx, mode, where, inp, entries, origs, impl, ref, guard_ok=True):
     return bad
 
 
+SMALL_METAFILE = {None: "reference encoder v1", "attr": "reference encoder v1, attr x/h/xh on ordinary files",
+                  "attr-pad": "reference encoder v1, attr x/h/xh on ordinary files, pad entries (attr p) between files"}
+
+
+def small_metafile(files, pl, single, variant):
+    if not variant:
+        return oracle.ref_metafile("p", files, pl, 1, single=single)
+    return ref_attr_metafile("p", files, pl, single, pads=variant == "attr-pad")
+
+
 def tie_small_v1(ctx, mode, model_ok):
     """
     FeedChecker / Checker.iter_hashes vs the extracted model vs the reference verifier on reference-encoded v1
@@ -486,10 +497,6 @@ def tie_small_v1(ctx, mode, model_ok):
             root = os.path.join(tmp, f"L{ln}", "p")
             datas = [small_data(i, s) for i, s in enumerate(sizes)]
             files = [((f"f{i}",), d) for i, d in enumerate(datas)]
-            raw = oracle.ref_metafile("p", files, pl, 1, single=single)
-            with open(mf, "wb") as fd:
-                fd.write(raw)
-            meta = oracle.bdecode_strict(raw)
             trees.write_tree(root, {(): datas[0]} if single else dict(files))
             if mode == "C05":
                 states = [None]
@@ -499,34 +506,51 @@ def tie_small_v1(ctx, mode, model_ok):
                 states = [None] + single_damages(sizes)
             if not exhaustive and len(states) > 7:
                 states = states[:1] + ctx.rng.sample(states[1:], 6)
-            for dmg in states:
-                if single and dmg is not None and dmg[0] == "rm":
-                    continue        # the content path itself would not exist
-                if dmg is not None:
-                    p = path_of(root, (f"f{dmg[1]}",), single)
-                    write_file(p, apply_damage(datas[dmg[1]], dmg))
-                entries = v1_entries(meta, root, single)
-                impl = impl_run(mf, root, want_pieces=True)
-                ref = oracle.verify_v1(meta, root)
-                inp = {"scope": "small-v1", "piece_length": pl, "sizes": list(sizes), "single": single, "damage": dmg,
-                       "metafile": "reference encoder v1"}
-                cl = classify(entries, datas, pl, per_file=False)
-                judge(ctx, mode, "v1", inp, entries, datas, impl, ref)
-                nsample += 1
-                ctx.case(key=("small", sizes, pl, single, dmg), classes=sorted(cl), nontrivial=bool(cl),
-                         sample=inp if nsample in (40, 400) else None)
-                f = v1_model_fields(meta, entries)
-                feed_lines.append(f)
-                piece_lines.append(f[:3])
-                spec_lines.append(f)
-                records.append((inp, impl, ref))
-                if dmg is not None:
-                    write_file(p, datas[dmg[1]])
+            # the plain reference encoding of every layout; for a part of the multi-file layouts ALSO the encodings of another
+            # tool: attr x / h / xh on the ordinary files, without and with BEP 47 pad entries between the files
+            variants = [None]
+            if len(sizes) >= 2 and sum(sizes) > 0 and ln % 4 in (0, 2):
+                variants.append("attr" if ln % 4 == 0 else "attr-pad")
+            for variant in variants:
+                raw = small_metafile(files, pl, single, variant)
+                with open(mf, "wb") as fd:
+                    fd.write(raw)
+                meta = oracle.bdecode_strict(raw)
+                vstates = states if variant is None or len(states) <= 3 else states[:1] + states[1 + ln % 3::3]
+                for dmg in vstates:
+                    if single and dmg is not None and dmg[0] == "rm":
+                        continue        # the content path itself would not exist
+                    if dmg is not None:
+                        p = path_of(root, (f"f{dmg[1]}",), single)
+                        write_file(p, apply_damage(datas[dmg[1]], dmg))
+                    entries = v1_entries(meta, root, single)
+                    origs = datas if variant is None else origs_for(entries, dict(files))
+                    impl = impl_run(mf, root, want_pieces=True)
+                    ref = oracle.verify_v1(meta, root)
+                    inp = {"scope": "small-v1", "piece_length": pl, "sizes": list(sizes), "single": single, "damage": dmg,
+                           "metafile": SMALL_METAFILE[variant]}
+                    if variant:
+                        inp["attr_variant"] = variant
+                    cl = classify(entries, origs, pl, per_file=False)
+                    if variant:
+                        cl = set(cl) | {"ordinary files carry attr x/h" + (" + pad entries (attr p) between files" if variant == "attr-pad" else "")}
+                    judge(ctx, mode, "v1", inp, entries, origs, impl, ref)
+                    nsample += 1
+                    ctx.case(key=("small", sizes, pl, single, dmg, variant), classes=sorted(cl), nontrivial=bool(cl),
+                             sample=inp if nsample in (40, 400) else None)
+                    f = v1_model_fields(meta, entries)
+                    feed_lines.append(f)
+                    piece_lines.append(f[:3])
+                    spec_lines.append(f)
+                    records.append((inp, impl, ref))
+                    if dmg is not None:
+                        write_file(p, datas[dmg[1]])
             shutil.rmtree(os.path.join(tmp, f"L{ln}"), ignore_errors=True)
     if exhaustive:
         ctx.exhaustive = True
         ctx.notes.append(f"small scope enumerated completely: {len(layouts)} layouts (<= 4 files, sizes 0..5, pl 1..4, "
-                         f"single-file form for 1 file), {len(records)} (layout, disk state) pairs")
+                         f"single-file form for 1 file), {len(records)} (layout, metafile, disk state) triples incl. the attr x/h/xh (+ pad entry) "
+                         f"encodings of a part of the multi-file layouts")
     compare_v1_models(ctx, model_ok, feed_lines, piece_lines, spec_lines, records)
 
 
@@ -604,7 +628,49 @@ def gen_damage_set(rng, files, pl, ndmg, single):
     return state, desc
 
 
-KINDS = ["v1", "v1-align", "v2-class", "v2-asm", "hybrid-class", "hybrid-asm", "ref-v1", "ref-v2", "ref-hybrid"]
+ATTR_KINDS = ["ref-v1-attr", "ref-v1-attr-pad"]
+KINDS = ["v1", "v1-align", "v2-class", "v2-asm", "hybrid-class", "hybrid-asm", "ref-v1", "ref-v2", "ref-hybrid"] + ATTR_KINDS
+ATTR_CYCLE = (b"x", None, b"h", b"xh")
+
+
+def file_attrs(files):
+    """the BEP 47 attributes ANOTHER encoder records on ORDINARY payload files: x (executable), h (hidden), both, none --
+       cycling over the files; at least one non-empty file carries one"""
+    attrs = [ATTR_CYCLE[i % len(ATTR_CYCLE)] for i in range(len(files))]
+    if not any(a and d for a, (_, d) in zip(attrs, files)):
+        for i, (_, d) in enumerate(files):
+            if d:
+                attrs[i] = b"x"
+                break
+    return attrs
+
+
+def ref_attr_metafile(name, files, pl, single, pads):
+    """
+    reference-encoded v1 metafile "as another tool writes it": the ordinary files of the `files` list carry `attr` x / h / xh
+    (file_attrs), and -- pads -- a BEP 47 padding entry (attr p, path .pad/<n>) follows every file but the last that does not
+    end on a piece boundary; `pieces` covers the stream with the padding.  Single file: `attr` x beside info.length.
+    """
+    info = {b"name": name.encode(), b"piece length": pl}
+    if single:
+        stream = files[0][1]
+        info[b"length"] = len(stream)
+        info[b"attr"] = b"x"
+    else:
+        flist, stream = [], b""
+        for i, ((comps, data), a) in enumerate(zip(files, file_attrs(files))):
+            e = {b"length": len(data), b"path": [c.encode() for c in comps]}
+            if a:
+                e[b"attr"] = a
+            flist.append(e)
+            stream += data
+            gap = -len(data) % pl
+            if pads and gap and i != len(files) - 1:
+                flist.append({b"attr": b"p", b"length": gap, b"path": [b".pad", str(gap).encode()]})
+                stream += bytes(gap)
+        info[b"files"] = flist
+    info[b"pieces"] = b"".join(oracle.v1_pieces(stream, pl))
+    return oracle.bencode({b"info": info})
 
 
 def order_files(tree):
@@ -615,8 +681,11 @@ def order_files(tree):
 def make_metafile(kind, root, name, files, pl, single, out):
     """returns raw bytes of the metafile written to `out`"""
     if kind.startswith("ref-"):
-        version = {"ref-v1": 1, "ref-v2": 2, "ref-hybrid": 3}[kind]
-        raw = oracle.ref_metafile(name, files, pl, version, single=single)
+        if kind in ATTR_KINDS:
+            raw = ref_attr_metafile(name, files, pl, single, pads=kind.endswith("-pad"))
+        else:
+            version = {"ref-v1": 1, "ref-v2": 2, "ref-hybrid": 3}[kind]
+            raw = oracle.ref_metafile(name, files, pl, version, single=single)
         with open(out, "wb") as fd:
             fd.write(raw)
         return raw
@@ -792,7 +861,7 @@ def apply_desc(files, desc):
     return state
 
 
-V1_KINDS = ["v1", "v1-align", "ref-v1"]
+V1_KINDS = ["v1", "v1-align", "ref-v1"] + ATTR_KINDS
 V2_KINDS = ["v2-class", "v2-asm", "hybrid-class", "hybrid-asm", "ref-v2", "ref-hybrid"]
 
 
@@ -967,46 +1036,73 @@ def impl_checker_init(mf, path, base):
     return rel(chk.root), ents, chk.total
 
 
+CP_LAYOUTS = ["plain", "single", "inner-same-name-dir", "inner-same-name-file", "parent-same-name", "single",
+              "only-file-same-name", "only-file-same-name-nested"]
+SAME_NAME_TREES = {      # a DIRECTORY `data` whose only file is named like it: data/data, and data/data/data
+    "only-file-same-name": ("data",),
+    "only-file-same-name-nested": ("data", "data"),
+}
+
+
+def checkpaths_scenario(base, cp_seed, i, kinds=None):
+    """scenario i of tie_checkpaths as a function of its seed (a replay file rebuilds it): (scenario, layout label)"""
+    rng = random.Random(cp_seed)
+    layout = CP_LAYOUTS[i % len(CP_LAYOUTS)]
+    pl = rng.choice([16384, 32768])
+    if layout == "single":
+        # (the first single-file layout of every round always has >= 3 pieces, so that its truncation on a piece
+        # boundary leaves two or more whole verifying pieces on disk: a length taken from the disk then reports 100)
+        pool = [pl * 3 + 5, 4 * pl + 1, 5 * pl, 3 * pl] if i % len(CP_LAYOUTS) == 1 else [pl * 3 + 5, 2 * pl, 4 * pl + 1, 7]
+        sc = Scenario(base, rng, pl=pl, tree={(): rng.randbytes(rng.choice(pool))}, kinds=kinds)
+    elif layout == "plain":
+        sc = Scenario(base, rng, pl=pl, kinds=kinds)
+    elif layout == "parent-same-name":
+        base = os.path.join(base, "payload")
+        sc = Scenario(base, rng, pl=pl, name="payload", never_single=True, sizes=[pl + 1, 0, 2 * pl], kinds=kinds)
+    elif layout in SAME_NAME_TREES:
+        # the payload is a directory that holds exactly ONE file, named like the directory: the v2 file tree of its metafile is
+        # {name: {"": leaf}} -- the very shape of a single-FILE payload; only the disk tells them apart
+        sc = Scenario(base, rng, pl=pl, name="data", kinds=kinds,
+                      tree={SAME_NAME_TREES[layout]: rng.randbytes(rng.choice([2 * pl + 100, pl + 9, 7, 3 * pl]))})
+    else:
+        # an entry named like the payload inside it (a directory or a file), listed in the metafiles as well
+        inner = ("payload",) if layout.endswith("file") else ("payload", "x")
+        sc = Scenario(base, rng, pl=pl, name="payload", kinds=kinds,
+                      tree={("a.bin",): rng.randbytes(pl + 9), inner: rng.randbytes(2 * pl + 100), ("z",): b""})
+    return sc, layout
+
+
+def checkpaths_states(sc, mode):
+    states = [("intact", [d for _, d in sc.files])]
+    if mode != "C05":
+        big = max(range(len(sc.files)), key=lambda j: len(sc.files[j][1]))
+        L = len(sc.files[big][1])
+        for label, cut in (("truncated on a piece boundary", (L // sc.pl - 1) * sc.pl if L >= 2 * sc.pl else 0),
+                           ("truncated inside a piece", max(L - 5, 0)), ("removed", None)):
+            st = [d for _, d in sc.files]
+            st[big] = None if cut is None else sc.files[big][1][:cut]
+            states.append((label, st))
+    return states
+
+
 def tie_checkpaths(ctx, mode, model_ok):
     """
     Checker.__init__ vs the extracted Model/CheckPaths.v on real scratch directories: every metafile kind x {payload root,
     parent directory} x {intact, damaged: truncated on / off a piece boundary, removed files, payload absent}, single-file
     payloads incl. the conformant v2 form without info.length, and the name-collision layouts (an entry named like the payload
-    INSIDE the payload; a parent directory named like the payload; a file where the payload directory should be).
+    INSIDE the payload; a parent directory named like the payload; a file where the payload directory should be; a payload
+    DIRECTORY whose only file is named like it -- data/data, data/data/data -- whose v2 file tree has the shape of a single-file
+    metafile).  The kinds include the v1 metafiles of another encoder with attr x / h / xh on ordinary files (fi_attr, fi_padding).
+    Every (layout, state, root | parent) is also judged by the property itself against the reference verifier.
     """
-    n = {"quick": 6, "thorough": 60}[ctx.tier]
+    n = {"quick": len(CP_LAYOUTS), "thorough": 64}[ctx.tier]
     jobs = []       # (description, metafile bytes, path comps, table, impl)
     with core.Scratch("vrcp_") as tmp:
         os.environ["HOME"] = tmp
         for i in range(n):
-            rng = random.Random(ctx.rng.getrandbits(64))
-            base = os.path.join(tmp, f"p{i}", "w")
-            layout = ["plain", "single", "inner-same-name-dir", "inner-same-name-file", "parent-same-name", "single"][i % 6]
-            pl = rng.choice([16384, 32768])
-            if layout == "single":
-                # (the first single-file layout of every six always has >= 3 pieces, so that its truncation on a piece
-                # boundary leaves two or more whole verifying pieces on disk: a length taken from the disk then reports 100)
-                pool = [pl * 3 + 5, 4 * pl + 1, 5 * pl, 3 * pl] if i % 6 == 1 else [pl * 3 + 5, 2 * pl, 4 * pl + 1, 7]
-                sc = Scenario(base, rng, pl=pl, tree={(): rng.randbytes(rng.choice(pool))})
-            elif layout == "plain":
-                sc = Scenario(base, rng, pl=pl)
-            elif layout == "parent-same-name":
-                base = os.path.join(base, "payload")
-                sc = Scenario(base, rng, pl=pl, name="payload", never_single=True, sizes=[pl + 1, 0, 2 * pl])
-            else:
-                # an entry named like the payload inside it (a directory or a file), listed in the metafiles as well
-                inner = ("payload",) if layout.endswith("file") else ("payload", "x")
-                sc = Scenario(base, rng, pl=pl, name="payload",
-                              tree={("a.bin",): rng.randbytes(pl + 9), inner: rng.randbytes(2 * pl + 100), ("z",): b""})
-            states = [("intact", [d for _, d in sc.files])]
-            if mode != "C05":
-                big = max(range(len(sc.files)), key=lambda j: len(sc.files[j][1]))
-                L = len(sc.files[big][1])
-                for label, cut in (("truncated on a piece boundary", (L // sc.pl - 1) * sc.pl if L >= 2 * sc.pl else 0),
-                                   ("truncated inside a piece", max(L - 5, 0)), ("removed", None)):
-                    st = [d for _, d in sc.files]
-                    st[big] = None if cut is None else sc.files[big][1][:cut]
-                    states.append((label, st))
+            cp_seed = ctx.rng.getrandbits(64)
+            sc, layout = checkpaths_scenario(os.path.join(tmp, f"p{i}", "w"), cp_seed, i)
+            states = checkpaths_states(sc, mode)
             for label, st in states:
                 sc.set_state(st)
                 table = fs_table_of(sc.base if layout != "parent-same-name" else os.path.dirname(sc.base))
@@ -1020,7 +1116,7 @@ def tie_checkpaths(ctx, mode, model_ok):
                         impl = impl_checker_init(mf, path, tb)
                         desc = {"scope": "checker-init", "layout": layout, "metafile": kind, "state": label, "content_path": where,
                                 "piece_length": sc.pl, "name": sc.name, "single": sc.single,
-                                "files": {"/".join(c): len(x) for c, x in sc.files}}
+                                "files": {"/".join(c): len(x) for c, x in sc.files}, "cp_seed": cp_seed, "cp_index": i, "cp_mode": mode}
                         jobs.append((desc, raw, comps, table, impl))
                         # the property itself on these layouts (independent of the model): the reference verifier judges
                         # (a removed single-file payload leaves nothing to check: the tool raises FileNotFoundError, which is not a report)
@@ -1298,17 +1394,37 @@ def e2e(ctx, mode):
         aimed_layouts(ctx, mode, tmp)
 
 
-def layout_scenario(base, content_seed, pl, sizes, single, kinds):
-    """a payload of the given sizes (files f00, f01, ...; or one single file) whose content is a function of content_seed"""
+ATTR_LABEL = "v1 metafile of another encoder: ordinary files carry attr x/h/xh (plain and with pad entries, attr p, between files)"
+SAME_NAME_LABEL = "payload directory whose ONLY file is named like it (data/data)"
+SAME_NAME_NESTED_LABEL = "payload directory whose only entry is a directory named like it holding one file named like it (data/data/data)"
+
+
+def layout_scenario(base, content_seed, pl, sizes, single, kinds, shape=None):
+    """a payload of the given sizes (files f00, f01, ...; or one single file; or -- shape -- the directory `data` whose only
+       file is data/data resp. data/data/data) whose content is a function of content_seed"""
     rng = random.Random(content_seed)
+    if shape:
+        return Scenario(base, rng, pl=pl, name="data", tree={SAME_NAME_TREES[shape]: rng.randbytes(sizes[0])}, kinds=kinds)
     if single:
         return Scenario(base, rng, pl=pl, tree={(): rng.randbytes(sizes[0])}, kinds=kinds)
     return Scenario(base, rng, pl=pl, sizes=sizes, kinds=kinds, never_single=True)
 
 
 def aimed_layout_list(mode):
-    """(class label, pl, sizes, single, damage, kinds) of the aimed end-to-end layouts"""
+    """(class label, pl, sizes, single, damage, kinds[, shape]) of the aimed end-to-end layouts; a layout with a shape is run
+       through the payload root AND through the parent directory"""
     out = []
+    # the metafiles of another encoder with BEP 47 attributes on ordinary files (every mode)
+    for pl, sizes, desc in ((16384, [16384 + 5, 0, 100, 2 * 16384], [("flip", 2, 50), ("trunc", 3, 16384)]),
+                            (32768, [7, 32768, 3], [("rm", 0), ("flip", 1, 32767)]),
+                            (16384, [2 * 16384 + 1, 16383], [("trunc", 0, 16384 + 1)])):
+        out.append((ATTR_LABEL, pl, sizes, False, desc, ATTR_KINDS + ["v1-align"]))
+    # a directory that holds exactly one file named like it: every v2-view kind (and v1), root and parent
+    for shape, label in (("only-file-same-name", SAME_NAME_LABEL), ("only-file-same-name-nested", SAME_NAME_NESTED_LABEL)):
+        for pl, n in ((16384, 2 * 16384 + 100), (32768, 9)):
+            if shape.endswith("nested") and n == 9:
+                continue
+            out.append((label, pl, [n], False, [("trunc", 0, n - 5)] if n > 9 else [("flip", 0, 4)], V2_KINDS + ["v1", "ref-v1"], shape))
     if mode != "C05":
         for pl in (32768, 16384):
             for sizes, desc in absent_empty_cases(pl):
@@ -1334,10 +1450,13 @@ def aimed_layouts(ctx, mode, tmp):
     C05 the intact tree (and: objects that saw the damage, asked again once it is intact); C04 the damaged tree (and: objects
     that saw it intact, asked again after the damage); C16 both states
     """
-    for n, (label, pl, sizes, single, desc, kinds) in enumerate(aimed_layout_list(mode)):
+    for n, (label, pl, sizes, single, desc, kinds, *shape) in enumerate(aimed_layout_list(mode)):
+        shape = shape[0] if shape else None
         content_seed = ctx.rng.getrandbits(64)
-        sc = layout_scenario(os.path.join(tmp, f"al{n}"), content_seed, pl, sizes, single, kinds)
+        sc = layout_scenario(os.path.join(tmp, f"al{n}"), content_seed, pl, sizes, single, kinds, shape)
         recipe = {"scope": "aimed-layout", "content_seed": content_seed, "sizes": list(sizes)}
+        if shape:
+            recipe["shape"] = shape
         for k, err in sc.errors.items():
             ctx.fail("create-raised", sc.describe(k, None, recipe), "a metafile", err)
         intact = [d for _, d in sc.files]
@@ -1377,6 +1496,13 @@ def aimed_layouts(ctx, mode, tmp):
                     cl.add("a Checker object reused after the disk changed (damaged -> restored)")
                     reuse_c05(ctx, reuse[kind], inp, [desc])
                 ctx.case(key=("aimed-layout", n, kind, str(d)), classes=sorted(cl), nontrivial=True)
+                if shape:
+                    # the same state through the PARENT directory as the content path
+                    inp_p = dict(inp, content_path="parent")
+                    judge(ctx, mode, "aimed-" + ("v2" if per_file else "v1") + "-via-parent", inp_p, entries, origs,
+                          impl_run(mf, sc.parent), reference(meta, sc.root), guard_ok=guard)
+                    ctx.case(key=("aimed-layout", n, kind, str(d), "parent"), nontrivial=True,
+                             classes=sorted(cl | {"content path = parent directory"}))
         shutil.rmtree(sc.base, ignore_errors=True)
 
 
@@ -1462,15 +1588,20 @@ def record_ast(ctx):
 
 
 def run(ctx, mode, model_ok):
+    import time
     record_ast(ctx)
-    tie_small_v1(ctx, mode, model_ok)
-    tie_generated(ctx, mode, model_ok)
-    tie_checkpaths(ctx, mode, model_ok)
-    # the composition Checker(metafile, path) -> (total, matched, consumed) (Model/RecheckInit.v) and the Coq reference encoder
     from props import recheck_pipeline
-    recheck_pipeline.tie_pipeline(ctx, mode, model_ok)
-    recheck_pipeline.tie_ref_encoder(ctx, mode, model_ok)
+    # (tie_pipeline: the composition Checker(metafile, path) -> (total, matched, consumed) of Model/RecheckInit.v; tie_ref_encoder:
+    # the Coq reference encoder)
+    for phase in (tie_small_v1, tie_generated, tie_checkpaths, recheck_pipeline.tie_pipeline, recheck_pipeline.tie_ref_encoder):
+        t0 = time.time()
+        phase(ctx, mode, model_ok)
+        if os.environ.get("VERIF_TIMING"):
+            print(f"[timing] {phase.__name__} {time.time() - t0:.1f}s", file=sys.stderr)
+    t0 = time.time()
     e2e(ctx, mode)
+    if os.environ.get("VERIF_TIMING"):
+        print(f"[timing] e2e {time.time() - t0:.1f}s", file=sys.stderr)
     # smallest failing inputs first, so that the replay written per kind is the simplest one found
     def weight(f):
         inp = f.get("input") or {}
@@ -1500,7 +1631,7 @@ def replay(ctx, mode, data):
             files = [((f"f{i}",), d) for i, d in enumerate(datas)]
             root = os.path.join(tmp, "p")
             mf = os.path.join(tmp, "m.torrent")
-            raw = oracle.ref_metafile("p", files, pl, 1, single=single)
+            raw = small_metafile(files, pl, single, inp.get("attr_variant"))
             open(mf, "wb").write(raw)
             trees.write_tree(root, {(): datas[0]} if single else dict(files))
             if dmg:
@@ -1530,11 +1661,19 @@ def replay(ctx, mode, data):
             ref = reference(meta, sc.root)
         elif inp["scope"] == "aimed-layout":
             sc = layout_scenario(os.path.join(tmp, "al"), inp["content_seed"], inp["piece_length"], inp["sizes"], inp["single"],
-                                 [inp["metafile"]])
+                                 [inp["metafile"]], inp.get("shape"))
             seq_states = [apply_desc(sc.files, d) for d in (reuse or {}).get("earlier_states", [])] + [apply_desc(sc.files, inp["damage"])]
             sc.set_state(seq_states[-1])
             mf, meta = sc.metas[inp["metafile"]]
-            impl = impl_run(mf, sc.root)
+            impl = impl_run(mf, sc.parent if inp.get("content_path") == "parent" else sc.root)
+            ref = reference(meta, sc.root)
+        elif inp["scope"] == "checker-init" and "cp_seed" in inp:
+            print("checker-init layout: rebuilt from cp_seed")
+            sc, layout = checkpaths_scenario(os.path.join(tmp, "p", "w"), inp["cp_seed"], inp["cp_index"], kinds=[inp["metafile"]])
+            sc.set_state(dict(checkpaths_states(sc, inp.get("cp_mode", mode)))[inp["state"]])
+            mf, meta = sc.metas[inp["metafile"]]
+            print("payload:", sc.root, "files:", {"/".join(c): len(x) for c, x in sc.files}, "content path:", inp["content_path"])
+            impl = impl_run(mf, sc.parent if inp["content_path"] == "parent" else sc.root)
             ref = reference(meta, sc.root)
         else:
             rng = random.Random(inp.get("case_seed", 0))
